@@ -197,4 +197,9 @@ namespace PC
 /-- `StabilizerState.expect(PauliPolynomial)` (repaired): strings evaluated phase-free, `i^p` folded into the coefficient -/
 def expectPoly (st : State) (a : Poly) : Cx :=
   a.foldl (fun acc t => acc.add ((t.2.mul (Cx.ipow t.1.p)).mul (Cx.ofInt (expect1 st ⟨t.1.g, 0⟩)))) Cx.zero
+
+/-- `StabilizerState.density_matrix`: `PauliPolynomial(gs, ps) / 2**N` with `(gs, ps)` the products of the active stabilizers
+    selected by every bit string (`densityRows`) -/
+def densityPoly (st : State) : Poly :=
+  polySmul (Cx.inv ⟨(2 : Rat) ^ st.N, 0⟩) ((densityRows st).map fun R => (R, Cx.one))
 end PC
